@@ -115,6 +115,10 @@ func (n *Names) CanonArgs(point string, raw []any) []string {
 	if len(raw) == 0 {
 		return nil
 	}
+	if strings.HasSuffix(point, ".pause.ack") || strings.HasSuffix(point, ".resumed") || strings.HasSuffix(point, ".exit") {
+		// the worker number is not canonical: which of the symmetric workers is busy depends on start-up timing (rule R1)
+		return nil
+	}
 	out := make([]string, 0, len(raw))
 	for _, a := range raw {
 		out = append(out, n.canon(a))
